@@ -232,14 +232,14 @@ Qed.
 Definition zeros (l : list N) : N := fold_right (fun st a => (if st =? 0 then 1 else 0) + a) 0 l.
 
 Lemma restart_fold_pm k c now m : forall l s e,
-  pm m (x_w (fst (fold_left (fun (acc : xs * bool) stage => if snd acc then acc else at_sim_start k c now m stage (fst acc)) l (s, e)))) <=
+  pm m (x_w (fst (fold_left (fun (acc : xs * bool) stage => if snd acc then acc else restart_stage k c now m stage (fst acc)) l (s, e)))) <=
   pm m (x_w s) + zeros l * spw (c_tasks c).
 Proof.
   induction l as [|st l IH]; intros s e; cbn [fold_left fst snd zeros fold_right]; [lia|].
   destruct e.
   - specialize (IH s true). fold (zeros l). nia.
-  - pose proof (at_sim_start_pm k c now m st s) as H1. destruct (at_sim_start k c now m st s) as [s1 e1]. cbn [fst] in H1.
-    specialize (IH s1 e1). fold (zeros l). destruct (st =? 0); nia.
+  - pose proof (at_sim_start_pm k c now m st s) as H1. unfold restart_stage. destruct (at_sim_start k c now m st s) as [s1 e1]. cbn [fst snd] in *.
+    specialize (IH s1 (e1 || negb (active (w_mod (x_w s1) m)))). fold (zeros l). destruct (st =? 0); nia.
 Qed.
 
 Lemma zeros_stage_list n : zeros (stage_list n) <= 1.
